@@ -723,11 +723,25 @@ fn unpaired_ci_check<M: Machine>(slot: u16, s: &Slot<M>, o_h: &Obs, o_b: &Obs, o
                         return Some(Violation::new("C09", "ci-differs-from-batch", slot, format!("{} {name}: history {:?} batch {:?}", conf_name(c), bh, bb)));
                     }
                     let span = (bb - md).abs();
+                    // statrs forms the t quantile as sqrt(dof (1 - y) / y) with y = dof / (dof + t^2)
+                    // rounded to f64: for small t (levels near 0, many degrees of freedom) 1 - y
+                    // cancels and the quantile carries a relative error of u_f64 (dof + t^2) / (2 t^2),
+                    // which differs between history and batch because their dof differ in the last
+                    // bits. Estimate it from the exact variances; skip a bound it dominates.
+                    let (sa, sb) = (ta.var / ta.n, tb.var / tb.n);
+                    let se = (sa + sb).sqrt();
+                    let dof = (sa + sb) * (sa + sb) / (sa * sa / (ta.n + 1.0) + sb * sb / (tb.n + 1.0)) - 2.0;
+                    let t_est = if se > 0.0 { span / se } else { 0.0 };
+                    let qnoise = if t_est > 0.0 { se * (dof.max(1.0) + t_est * t_est) / (2.0 * t_est) * 8.0 * f64::EPSILON } else { f64::INFINITY };
+                    if !(qnoise < span / 4.0) {
+                        stats.inc("c09_unpaired_ci_quantile_noise_dominated");
+                        continue;
+                    }
                     // standard error and effective dof are smooth in the two variances; the
                     // t quantile has |d ln t / d ln dof| < 8 for dof >= 1 at every level used
                     // ... and is itself computed by an iterative solver (statrs inv_beta_reg) whose
                     // result is not a smooth function of dof below ~1e-12 relative: T_QUANTILE_NOISE
-                    let tol = ta.dm + tb.dm + span * (64.0 * eps + T_QUANTILE_NOISE) + 8.0 * u * (ta.mu.abs() + tb.mu.abs() + span) + 8.0 * eta::<M>();
+                    let tol = ta.dm + tb.dm + span * (64.0 * eps + T_QUANTILE_NOISE) + qnoise + 8.0 * u * (ta.mu.abs() + tb.mu.abs() + span) + 8.0 * eta::<M>();
                     let d = (bh - bb).abs();
                     stats.worst("c09_unpaired_ci_diff_over_tol", d / tol);
                     if !(d <= tol) {
